@@ -252,12 +252,15 @@ package setec
 //@     invariant [bound] 0 <= iter && iter <= len(c.Structs)
 //@     invariant [svs-nonnil] forall j int :: (0 <= j && j < len(svs)) ==> svs[j] != nil
 //@     invariant [one-per-struct] len(svs) == iter
+//@     invariant [config-kept] fresh(sec) && (forall i int :: (0 <= i && i < len(c.Secrets)) ==> c.Secrets[i] == old(c.Secrets[i]))
 //@     invariant [same-when-no-structs] iter == 0 ==> len(sec) == len(c.Secrets)
 //@     invariant [prefix] len(sec) >= len(c.Secrets) && (forall i int :: (0 <= i && i < len(c.Secrets)) ==> sec[i] == c.Secrets[i])
 //@   loop 1
 //@     invariant [nonempty] forall j int :: (0 <= j && j < iter) ==> sec[j] != ""
+//@     invariant [config-kept] forall i int :: (0 <= i && i < len(c.Secrets)) ==> c.Secrets[i] == old(c.Secrets[i])
 //@   ensures [C10 names.nonempty-distinct] err == nil ==> ((forall j int :: (0 <= j && j < len(sec)) ==> sec[j] != "") && (forall i int, j int :: (0 <= i && i < j && j < len(sec)) ==> sec[i] != sec[j]))
 //@   ensures [C10 names.empty-config] (err == nil && len(c.Secrets) == 0 && len(c.Structs) == 0) ==> len(sec) == 0
+//@   ensures [C10 names.the-callers-configuration-is-not-modified] forall i int :: (0 <= i && i < len(c.Secrets)) ==> c.Secrets[i] == old(c.Secrets[i])
 //@   ensures [C20 names.no-struct-is-skipped] err == nil ==> len(svs) == len(c.Structs)
 //@   ensures [C20 names.fields-nonnil] err == nil ==> (forall j int :: (0 <= j && j < len(svs)) ==> svs[j] != nil)
 //@   ensures [C10,C20 names.listed-included] err == nil ==> (forall i int :: (0 <= i && i < len(c.Secrets)) ==> (exists j int :: 0 <= j && j < len(sec) && sec[j] == c.Secrets[i]))
